@@ -113,8 +113,9 @@ func MapKeys[K comparable, V any](m map[K]V) []K {
 	}
 	return keys
 }
-func ZeroK[K comparable, V any](m map[K]V) (z K) { return }
-func ZeroV[K comparable, V any](m map[K]V) (z V) { return }
+func MapKeysAny[K comparable, V any](m map[K]V) []K { return MapKeys(m) }
+func ZeroK[K comparable, V any](m map[K]V) (z K)    { return }
+func ZeroV[K comparable, V any](m map[K]V) (z V)    { return }
 
 func LoadInt32(p *int32) int32                         { return atomic.LoadInt32(p) }
 func LoadInt64(p *int64) int64                         { return atomic.LoadInt64(p) }
@@ -192,7 +193,7 @@ type Config struct {
 
 type Stats struct {
 	Steps, Switches, ClockJumps, VoluntaryClock, ForeignFired int
-	MapDecisions, MapNonSorted                                int
+	MapDecisions, MapNonSorted, MapKeyTies                    int
 	SelectMulti, MutexContended, ChanSendBlocked              int
 	Settled, TimersFired, BusyAdvance, SortYields, Quiescent  int
 }
